@@ -17,6 +17,7 @@ import (
 	"math"
 	"os"
 	"path/filepath"
+	"regexp"
 	"sort"
 	"strconv"
 	"strings"
@@ -302,8 +303,10 @@ func c09CheckFormat(c *Ctx, src []byte, path, origin string, strictComments bool
 		if err != nil {
 			msg = err.Error()
 		}
-		cls := "other"
-		if strings.Contains(string(src), "src ") && (bytes.Contains(src, []byte(`\"`)) || bytes.Contains(src, []byte(`\\`))) {
+		cls := c09Class(ast0)
+		if cls != "other" {
+			// known special class decides
+		} else if strings.Contains(string(src), "src ") && (bytes.Contains(src, []byte(`\"`)) || bytes.Contains(src, []byte(`\\`))) {
 			cls = "escape-in-src-or-include"
 		} else if bytes.Contains(src, []byte("@include")) {
 			cls = "escape-in-src-or-include"
@@ -343,7 +346,11 @@ func c09CheckFormat(c *Ctx, src []byte, path, origin string, strictComments bool
 		}
 	}
 	if len(lost) > 0 {
-		add("C09:comment-lost", fmt.Sprintf("comment text lost by the formatter: %q", lost), map[string]interface{}{"formatted": out1})
+		key := "C09:comment-lost"
+		if c09EmptyUsingRe.Match(src) {
+			key = "C09:comment-lost:empty-using-block"
+		}
+		add(key, fmt.Sprintf("comment text lost by the formatter: %q", lost), map[string]interface{}{"formatted": out1})
 	} else if strictComments && len(c1) != len(c0) {
 		add("C09:comment-duplicated", fmt.Sprintf("%d comments in, %d comments out", len(c0), len(c1)), map[string]interface{}{"formatted": out1})
 	}
@@ -411,6 +418,8 @@ func c09Class(a *syntax.Ast) string {
 	}
 	return "other"
 }
+
+var c09EmptyUsingRe = regexp.MustCompile(`using\s*\(\s*(#[^\n]*\n\s*)+\)`)
 
 func c09NoBlank(s string) string {
 	var out []string
